@@ -61,6 +61,69 @@ def fix (lt : α → α → Bool) (a : Array α) (i : Nat) : Array α :=
 
 end Rxn.Heap
 
+/-! ### the heap together with the index assigner
+
+`SetIndexAssigner(f)`: the code calls `f(x, n)` in `Push` (new slot), `Pop` (`-1` for the removed element, `0` for the
+element moved to the root when one is left) and after every `swap` (both slots). The elements are pointers whose
+stored index the callback overwrites; here the stored indices are a map from the element's identity (`key`) to
+the last assigned value. `…I` functions do exactly what the plain ones do on the array (`Proofs/HeapIdx.lean`). -/
+namespace Rxn.HeapI
+variable {α κ : Type} [DecidableEq κ]
+
+/-- `assignIndex(x, n)` -/
+def assign (key : α → κ) (s : κ → Int) (x : α) (n : Int) : κ → Int := fun k => if k = key x then n else s k
+
+/-- `swap(i, j)`: exchange, then `assignIndex(data[i], i); assignIndex(data[j], j)` -/
+def swapI (key : α → κ) (a : Array α) (s : κ → Int) (i j : Nat) (hi : i < a.size) (hj : j < a.size) :
+    Array α × (κ → Int) :=
+  (a.swap i j hi hj,
+   assign key (assign key s ((a.swap i j hi hj)[i]'(by simpa using hi)) i) ((a.swap i j hi hj)[j]'(by simpa using hj)) j)
+
+def upI (key : α → κ) (lt : α → α → Bool) (a : Array α) (s : κ → Int) (i : Nat) : Array α × (κ → Int) :=
+  if _h0 : i = 0 then (a, s) else
+  if hi : i < a.size then
+    if lt a[i] a[(i - 1) / 2] then
+      upI key lt (swapI key a s i ((i - 1) / 2) hi (by omega)).1 (swapI key a s i ((i - 1) / 2) hi (by omega)).2 ((i - 1) / 2)
+    else (a, s)
+  else (a, s)
+termination_by i
+decreasing_by omega
+
+def downI (key : α → κ) (lt : α → α → Bool) (a : Array α) (s : κ → Int) (i : Nat) : (Array α × (κ → Int)) × Nat :=
+  if hl : 2 * i + 1 < a.size then
+    have hb := Heap.minChild_bounds lt a i hl
+    if lt (a[Heap.minChild lt a i hl]'hb.1) (a[i]'(by omega)) then
+      downI key lt (swapI key a s i (Heap.minChild lt a i hl) (by omega) hb.1).1
+        (swapI key a s i (Heap.minChild lt a i hl) (by omega) hb.1).2 (Heap.minChild lt a i hl)
+    else ((a, s), i)
+  else ((a, s), i)
+termination_by a.size - i
+decreasing_by
+  simp only [swapI, Array.size_swap]
+  omega
+
+/-- `Push` -/
+def pushI (key : α → κ) (lt : α → α → Bool) (a : Array α) (s : κ → Int) (x : α) : Array α × (κ → Int) :=
+  upI key lt (a.push x) (assign key s x a.size) a.size
+
+/-- `Pop` (with the D33 repair: the moved element is re-assigned only when one is left) -/
+def popI (key : α → κ) (lt : α → α → Bool) (a : Array α) (s : κ → Int) : Option (α × (Array α × (κ → Int))) :=
+  if h : 0 < a.size then
+    let last := a[a.size - 1]'(by omega)
+    let a1 := (a.set 0 last).pop
+    let s1 := assign key s a[0] (-1)
+    let s2 := if 0 < a.size - 1 then assign key s1 last 0 else s1
+    some (a[0], if 0 < a.size - 1 then (downI key lt a1 s2 0).1 else (a1, s2))
+  else none
+
+/-- `Fix(i)` with the stored index: `if i == -1 { return }; if !down(i) { up(i) }` -/
+def fixI (key : α → κ) (lt : α → α → Bool) (a : Array α) (s : κ → Int) (i : Int) : Array α × (κ → Int) :=
+  if i < 0 then (a, s) else
+  let r := downI key lt a s i.toNat
+  if r.2 > i.toNat then r.1 else upI key lt r.1.1 r.1.2 i.toNat
+
+end Rxn.HeapI
+
 /-! ### heap of (priority, id) items as driven by the correspondence harness -/
 namespace Rxn.HeapItems
 
@@ -71,15 +134,46 @@ deriving DecidableEq, Repr, Inhabited
 
 def ilt (a b : Item) : Bool := decide (a.prio < b.prio)
 
-/-- position of the item with identity `id` (what the index assigner recorded), `none` when not in the heap -/
-def indexOf (a : Array Item) (id : Nat) : Option Nat := a.toList.findIdx? (fun x => x.id == id)
+/-- the heap with the items' stored `index` fields (by item id; `-1` = not in the heap) -/
+structure H where
+  data : Array Item := #[]
+  idx : Nat → Int := fun _ => -1
 
-/-- harness op: change the priority of a stored item, then `Fix(item.index)` -/
-def reprio (a : Array Item) (id newPrio : Nat) : Array Item :=
-  match indexOf a id with
-  | none => a
-  | some i =>
-    if h : i < a.size then Heap.fix ilt (a.set i { prio := newPrio, id := id }) i else a
+instance : Inhabited H := ⟨{}⟩
+
+def push (h : H) (x : Item) : H :=
+  let r := HeapI.pushI Item.id ilt h.data h.idx x
+  { data := r.1, idx := r.2 }
+
+def pop (h : H) : Option Item × H :=
+  match HeapI.popI Item.id ilt h.data h.idx with
+  | none => (none, h)
+  | some (x, r) => (some x, { data := r.1, idx := r.2 })
+
+/-- what the harness reads from `item.index` (`none` when negative) -/
+def indexOf (h : H) (id : Nat) : Option Nat := if h.idx id < 0 then none else some (h.idx id).toNat
+
+/-- harness op: change the priority of the item object `id` (wherever it is), then `Fix(item.index)`;
+nothing happens when the stored index is negative -/
+def reprio (h : H) (id newPrio : Nat) : H :=
+  if h.idx id < 0 then h else
+  let data := h.data.map (fun x => if x.id = id then { x with prio := newPrio } else x)
+  let r := HeapI.fixI Item.id ilt data h.idx (h.idx id)
+  { data := r.1, idx := r.2 }
+
+inductive Op where
+  | push (prio id : Nat) | pop | fix (id prio : Nat)
+
+def step (h : H) : Op → H
+  | .push p id => push h ⟨p, id⟩
+  | .pop => (pop h).2
+  | .fix id p => reprio h id p
+
+def out (h : H) : Op → Option Item
+  | .pop => (pop h).1
+  | _ => none
+
+def run (ops : List Op) : H := ops.foldl step {}
 
 end Rxn.HeapItems
 
@@ -100,8 +194,10 @@ def insertSorted (x : Item) : List Item → List Item
 
 structure Q where
   parts : Array (List Item)
-  heap : Array Nat          -- partition ids; `Index()` of partition p is its position here
-deriving Repr, Inhabited
+  heap : Array Nat          -- partition ids
+  idx : Nat → Int           -- the index each partition stored through `AssignIndex`; `Index()` returns it
+
+instance : Inhabited Q := ⟨⟨#[], #[], fun _ => -1⟩⟩
 
 def headOf (parts : Array (List Item)) (p : Nat) : Option Item := (parts.getD p []).head?
 
@@ -112,12 +208,11 @@ def partLt (parts : Array (List Item)) (a b : Nat) : Bool :=
   | some _, none => true
   | some x, some y => decide (x.prio < y.prio)
 
-/-- `partition.Index()` as maintained by the index assigner -/
-def indexOf (heap : Array Nat) (p : Nat) : Nat := heap.toList.idxOf p
-
-/-- `NewPartitionedPriorityQueue`: push every partition -/
+/-- `NewPartitionedPriorityQueue`: push every partition (the partitions may already hold items) -/
 def new (parts : Array (List Item)) : Q :=
-  { parts := parts, heap := (List.range parts.size).foldl (fun h p => Heap.push (partLt parts) h p) #[] }
+  let r := (List.range parts.size).foldl
+    (fun (h : Array Nat × (Nat → Int)) p => HeapI.pushI id (partLt parts) h.1 h.2 p) (#[], fun _ => -1)
+  { parts := parts, heap := r.1, idx := r.2 }
 
 def peek (q : Q) : Option Item :=
   match Heap.peek q.heap with
@@ -130,8 +225,8 @@ def isEmpty (q : Q) : Bool :=
   | some p => (headOf q.parts p).isNone
 
 /-- after partition `p` changed: `heap.Fix(partition.Index())` under the new order -/
-def refix (parts : Array (List Item)) (heap : Array Nat) (p : Nat) : Array Nat :=
-  Heap.fix (partLt parts) heap (indexOf heap p)
+def refix (parts : Array (List Item)) (heap : Array Nat) (idx : Nat → Int) (p : Nat) : Array Nat × (Nat → Int) :=
+  HeapI.fixI id (partLt parts) heap idx (idx p)
 
 def pop (q : Q) : Option Item × Q :=
   match Heap.peek q.heap with
@@ -141,15 +236,18 @@ def pop (q : Q) : Option Item × Q :=
     | [] => (none, q)
     | x :: rest =>
       let parts := q.parts.setIfInBounds p rest
-      (some x, { parts := parts, heap := refix parts q.heap p })
+      let r := refix parts q.heap q.idx p
+      (some x, { parts := parts, heap := r.1, idx := r.2 })
 
 def push (q : Q) (x : Item) : Q :=
   let parts := q.parts.setIfInBounds x.part (insertSorted x (q.parts.getD x.part []))
-  { parts := parts, heap := refix parts q.heap x.part }
+  let r := refix parts q.heap q.idx x.part
+  { parts := parts, heap := r.1, idx := r.2 }
 
 def delete (q : Q) (x : Item) : Q :=
   let parts := q.parts.setIfInBounds x.part ((q.parts.getD x.part []).erase x)
-  { parts := parts, heap := refix parts q.heap x.part }
+  let r := refix parts q.heap q.idx x.part
+  { parts := parts, heap := r.1, idx := r.2 }
 
 /-- operation sequences (an item whose partition index addresses no partition makes the code panic before any
 change; the state is then unchanged) -/
@@ -161,6 +259,9 @@ def step (q : Q) : Op → Q
   | .delete x => if x.part < q.parts.size then delete q x else q
   | .pop => (pop q).2
 
-def run (n : Nat) (ops : List Op) : Q := ops.foldl step (new (Array.replicate n []))
+/-- runs start from `NewPartitionedPriorityQueue(parts)` for any initial partition contents -/
+def runFrom (parts : Array (List Item)) (ops : List Op) : Q := ops.foldl step (new parts)
+
+def run (n : Nat) (ops : List Op) : Q := runFrom (Array.replicate n []) ops
 
 end Rxn.PPQ
